@@ -76,6 +76,16 @@ CHECKS = {
             'All N crash points of every target are executed (N = 12..100 on the small grids used); the sink must have received nothing when write() raised, the named output file must be absent or empty, and a retry on the same object must be all-or-nothing.',
             'Failure model: an exception from a model callable / a formula outside its domain. OS-level faults (disk full, kill) are not modelled.',
             'DESIGN.md 4/C17'),
+    'C13': (E2, 'model_checking',
+            'stateless explicit-history exploration on the real code: every valid sequence (depth <= 4, thorough 5) of create-view / read-view / tabulate-view operations over 8-12 filters and <= 3 live views of one parsed file, for pair, EAM, Finnis-Sinclair and ADP files, in lock-step with a text-editing reference; plus the full file x filter x target matrix through the potable command line',
+            'Every history is executed on fresh real objects and each observation (parsed lists, table bytes) is compared with the file from which the entries were deleted by hand, parsed by the same implementation; interference between views appears as a difference that depends on the other operations of the history.',
+            'Relational oracle (no expected numbers). Bounded: 3 species + one unknown label, <= 3 views, depth <= 5. Every explored trace is an implementation run (traces_validated_against_impl = histories).',
+            'DESIGN.md 4/C13'),
+    'C14': (E2, 'model_checking',
+            'stateless explicit-history exploration on the real code: every sequence (depth <= 3, thorough 4) of override / remove / add operations over an alphabet of section/key/value triples, through ConfigParser(overrides=, additional=) and through the potable command line (both option groupings), in lock-step with an ordered text model edited by hand',
+            'Each history is replayed on the implementation and on the text model; outcomes (configuration error at the first impossible edit, parsed lists, table bytes, --list-items / --list-item-labels / --item-value) must coincide.',
+            'Relational oracle; command-line phase semantics as stated in the evidence assumptions; exact repetitions of one removal excluded.',
+            'DESIGN.md 4/C14'),
 }
 
 NOT_YET = 'check not built yet in this revision of /verif (bounded exhaustive exploration applies; see DESIGN.md section 4)'
